@@ -121,3 +121,43 @@ __CPROVER_ensures(POST_wt_rank(*self, *x, ts, *ret));
 void h_i_widen_ts(void){ MK_TS(t); IN(I, a); IN(I, b); HGHOSTS; I r; I_WT(&r, &a, &b, &t); REACH; }
 /* the same contract with the real get_next / get_prev (std::upper_bound / lower_bound) in line */
 //@check id=i_widen_ts_inline fn=_ZNK4ikos8intervalINS_8z_numberEE19widening_thresholdsIN4crab10thresholdsIS1_EEEES2_RKS2_RKT_ tag=i_widen_ts harness=h_i_widen_ts tier=thorough props=C05 bounded="|T|<=6" unwind=9 timeout=600 first_timeout=300 cost=4
+
+/* ---------------------------------------------------------------- rational bounds against integer thresholds
+ * thresholds<z_number>::get_next<q_number> / get_prev<q_number>: the rational bound is rounded DOWN to an integer
+ * (the real bounds_impl::convert_bounds of lib/interval.cpp, in line), searched, and the threshold converted back.
+ * C05 needs: the result is a member of the set (an integer or an infinity) and result >= v (<= v) AS RATIONALS.
+ * BOUNDED: |T| <= 6, |numerator| < 4096, 0 < denominator < 64 (q model in precise mode: machine division);
+ * q_number is the model models/qmodel.c (pair numerator / denominator; rounding = floor / ceiling). */
+#ifndef __cplusplus
+typedef struct S_class_ikos__bound_0 QB;
+static inline i128 qb_num(QB b){ return (i128)(((u128)b.f1.f0.a.f0.f1 << 64) | (u128)b.f1.f0.a.f0.f0); }
+static inline i128 qb_den(QB b){ return (i128)(((u128)b.f1.f0.a.f1.f1 << 64) | (u128)b.f1.f0.a.f1.f0); }
+static inline bool qb_pinf(QB b){ return b.f0 != 0 && qb_num(b) > 0; }
+static inline bool qb_minf(QB b){ return b.f0 != 0 && qb_num(b) < 0; }
+static inline bool qb_ok(QB b){ return b.f0 <= 1 && (b.f0 ? ((qb_num(b) == 1 || qb_num(b) == -1) && qb_den(b) == 1) : (qb_num(b) > -4096 && qb_num(b) < 4096 && qb_den(b) > 0 && qb_den(b) < 64)); }
+/* the rational bound as an integer bound when it is one (denominator 1) */
+static inline B qb_as_z(QB b){ B r; r.f0 = b.f0; ZSET(&r.f1, qb_num(b)); return r; }
+/* a <= b as rationals (small operands: 64-bit products are exact) */
+static inline bool qb_le(QB a, QB b){
+  if (qb_minf(a) || qb_pinf(b)) return true;
+  if (a.f0 || b.f0) return false;
+  return (int64_t)qb_num(a) * (int64_t)qb_den(b) <= (int64_t)qb_num(b) * (int64_t)qb_den(a); }
+#define T_NEXT_Q _ZNK4crab10thresholdsIN4ikos8z_numberEE8get_nextINS1_8q_numberEEENS1_5boundIT_EERKS8_
+#define T_PREV_Q _ZNK4crab10thresholdsIN4ikos8z_numberEE8get_prevINS1_8q_numberEEENS1_5boundIT_EERKS8_
+//@check id=t_next_q fn=_ZNK4crab10thresholdsIN4ikos8z_numberEE8get_nextINS1_8q_numberEEENS1_5boundIT_EERKS8_ props=C05 bounded="|T|<=6, rational bounds with |numerator| < 4096 and denominator < 64" unwind=9 defs=QM_PRECISE first_timeout=400 timeout=600
+void T_NEXT_Q(QB *ret, TS *self, QB *v)
+__CPROVER_requires(FRESH(t_next_q, ret, sizeof(QB)) && FRESH(t_next_q, self, sizeof(TS)) && FRESH(t_next_q, v, sizeof(QB)) && t_ok(self) && qb_ok(*v))
+__CPROVER_assigns(*ret)
+__CPROVER_ensures(ret->f0 <= 1 && qb_den(*ret) == 1 && t_mem(self, qb_as_z(*ret)))
+__CPROVER_ensures(qb_le(*v, *ret))
+__CPROVER_ensures(qb_pinf(*v) ==> qb_pinf(*ret));
+void h_t_next_q(void){ MK_TS(t); IN(QB, v); QB r; T_NEXT_Q(&r, &t, &v); REACH; }
+//@check id=t_prev_q fn=_ZNK4crab10thresholdsIN4ikos8z_numberEE8get_prevINS1_8q_numberEEENS1_5boundIT_EERKS8_ props=C05 bounded="|T|<=6, rational bounds with |numerator| < 4096 and denominator < 64" unwind=9 defs=QM_PRECISE first_timeout=400 timeout=600
+void T_PREV_Q(QB *ret, TS *self, QB *v)
+__CPROVER_requires(FRESH(t_prev_q, ret, sizeof(QB)) && FRESH(t_prev_q, self, sizeof(TS)) && FRESH(t_prev_q, v, sizeof(QB)) && t_ok(self) && qb_ok(*v))
+__CPROVER_assigns(*ret)
+__CPROVER_ensures(ret->f0 <= 1 && qb_den(*ret) == 1 && t_mem(self, qb_as_z(*ret)))
+__CPROVER_ensures(qb_le(*ret, *v))
+__CPROVER_ensures(qb_minf(*v) ==> qb_minf(*ret));
+void h_t_prev_q(void){ MK_TS(t); IN(QB, v); QB r; T_PREV_Q(&r, &t, &v); REACH; }
+#endif
